@@ -1,7 +1,8 @@
 CONSTANTS MaxOps = 3
           ResyncOnChange = FALSE
+          DocCacheByText = FALSE
           LintMemo = FALSE
 INIT JInit
 NEXT JNext
-INVARIANTS CloneBehavesTheSame ImportedWordsAccepted IgnoredStayHidden AnswerIsCurrent
+INVARIANTS CloneBehavesTheSame ImportedWordsAccepted IgnoredStayHidden PromisedHidden AnswerIsCurrent
 CHECK_DEADLOCK FALSE
